@@ -148,6 +148,25 @@ func runC17(c *Ctx) {
 				out = "ok:" + shapeOf(o.Coll)
 			}
 			c.Emit("env "+v+" "+tok, out, len(list) > 0)
+			// direct oracle: which error classes must be present (independent re-statement of the property)
+			wantU, wantE := false, false
+			seenNames := map[string]bool{"context": true, "ucum": true}
+			for _, i := range list {
+				k := kinds[i]
+				if strings.Contains(k.shape, "b") {
+					wantU = true
+					continue
+				}
+				if seenNames[k.name] {
+					wantE = true
+				}
+				seenNames[k.name] = true
+			}
+			gotU, gotE := o.Err != nil && errors.Is(o.Err, fhirpath.ErrUnsupportedType), o.Err != nil && errors.Is(o.Err, fhirpath.ErrExistingConstant)
+			c.Law(gotU == wantU && gotE == wantE, "C17/option-error-classes", "unsupported values fail with ErrUnsupportedType and duplicate/predefined names with ErrExistingConstant, whatever else is in the list", "options "+tok+" reading %"+v, fmt.Sprintf("unsupported=%v existing=%v err=%v", gotU, gotE, o.Err))
+			if wantU || wantE {
+				c.Law(o.Err != nil, "C17/failing-option-ignored", "if any option fails Evaluate returns that error", "options "+tok, out)
+			}
 			c.Count("outcome:" + strings.SplitN(out, ":", 2)[0])
 		}
 	}
@@ -270,4 +289,6 @@ func runC17(c *Ctx) {
 	c.Law(o.Err != nil && !o.Panicked, "C17/custom-arg-singleton", "arguments must be single items", "Patient.typed(Patient.name.family, 3)", outTokens(o))
 	o = ev("Patient.failing()", failing, "failing")
 	c.Law(o.Err != nil && strings.Contains(o.Err.Error(), "boom"), "C17/custom-error", "the error a custom function returns is passed through", "Patient.failing()", fmt.Sprint(o.Err))
+	o = ev("failing()", failing, "failing")
+	c.Law(len(o.Coll) == 1 && o.Coll[0] == system.String("partial"), "C17/custom-result-with-error", "the collection a custom function returns is passed through unchanged, also next to an error", "failing()", fmt.Sprint(o.Coll))
 }
